@@ -315,7 +315,7 @@ func checkC06(p *Program, r *Report) {
 	sort.Slice(under, func(i, j int) bool { return under[i].String() < under[j].String() })
 	checkMaskTrim(p, r, "C06.trim", under)
 	checkArrayBound(p, r, "C06.array-bound")
-	checkLegacyEmptiness(p, r, under)
+	checkLegacyEmptiness(p, r, "C06.empty-legacy", under)
 	var conv []*ssa.Function
 	for _, f := range under {
 		if trieScope(f) {
@@ -325,13 +325,27 @@ func checkC06(p *Program, r *Report) {
 	checkLostCarry(p, r, "C06.carry", conv)
 }
 
+// underUnmarshal: the functions reachable from (*SlimTrie).Unmarshal, sorted.
+func underUnmarshal(p *Program) []*ssa.Function {
+	un := p.Method(p.Trie, "SlimTrie", "Unmarshal")
+	if un == nil {
+		return nil
+	}
+	var under []*ssa.Function
+	for f := range trieReach(un) {
+		under = append(under, f)
+	}
+	sort.Slice(under, func(i, j int) bool { return under[i].String() < under[j].String() })
+	return under
+}
+
 // checkLegacyEmptiness (C06.empty-legacy): in the pre-0.5.10 layout a trie
 // with a single key has NO children entry (its root is a leaf) and one leaf
 // entry. A branch of the legacy loader that decides "nothing to rebuild" from
 // the children array alone (its Cnt, or the length of one of its slices,
 // compared with 0) loses that trie; emptiness needs the leaves array too.
-func checkLegacyEmptiness(p *Program, r *Report, fns []*ssa.Function) {
-	r.Rule("C06.empty-legacy", "SSA", "the legacy loader never takes an empty children array for an empty trie", 0)
+func checkLegacyEmptiness(p *Program, r *Report, rule string, fns []*ssa.Function) {
+	r.Rule(rule, "SSA", "the legacy loader never takes an empty children array for an empty trie", 0)
 	isArr := func(v ssa.Value, name string) bool { return isNamed(v.Type(), arrayPath, name) }
 	// an emptiness test of an array: (x.Cnt | len(x.F)) cmp 0 where x is a value of the given array type
 	emptinessOf := func(cond ssa.Value, typ string) bool {
@@ -413,7 +427,7 @@ func checkLegacyEmptiness(p *Program, r *Report, fns []*ssa.Function) {
 		}
 	}
 	if n == 0 {
-		r.Note("C06.empty-legacy: the legacy loader has no branch on the emptiness of the children array")
+		r.Note(rule+": the legacy loader has no branch on the emptiness of the children array")
 	}
 }
 
